@@ -19,7 +19,9 @@
    Where the statement is silent (an error answer after a ready answer, two different error answers) the
    registration becomes `LAny` and is not judged any more. Panic / Hang of a duty cycle or of close is judged by
    C10; here they end the judged part of the history. *)
-Require Import V.Base.MachineInt V.Generated.GenConsts V.Model.Conductor.
+Require Import V.Base.MachineInt.
+Require Import V.Generated.GenConsts.
+Require Import V.Model.Conductor.
 Open Scope Z_scope.
 
 Inductive life :=
@@ -147,7 +149,7 @@ Definition c09_step (c0 tdrv : Z) (q : ost) (o : op) (x : out) : verdict :=
             if res_is r (Registration code)
             then match k with KDest => Next q | _ => Next (set_regs (rset k r' LGone (q_regs q)) q) end
             else Bad
-        | Some LGone => if is_err r then Next q else Bad
+        | Some LGone => if res_is r NotFound then Next q else Bad     (* reported once: afterwards the registration is unknown *)
         | Some LAny => Next q
         end end
       end
